@@ -82,11 +82,21 @@ func msmExpectedDirect(sc []*big.Int, pts []msmPoint) ref.Point {
 	return acc
 }
 
+// heapDecodeMismatch: set when decoding into a reused heap slot differed from decoding into a fresh point.
+var heapDecodeMismatch string
+
 func fillHeap(batch *batchHeap, sc []*big.Int, pts []msmPoint) {
 	for i := range sc {
 		modm.Expand(&batch.scalars[i], ref.ToLE(sc[i], 32))
-		if !ge25519.UnpackVartime(&batch.points[i], pts[i].ref().Encode()) {
+		enc := pts[i].ref().Encode()
+		var fresh ge25519.Ge25519
+		if !ge25519.UnpackVartime(&fresh, enc) {
 			panic("harness: cannot unpack constructed point")
+		}
+		// the heap slot is reused from chunk to chunk: decoding into it must give what a fresh point gets
+		if !ge25519.UnpackVartime(&batch.points[i], enc) || batch.points[i] != fresh {
+			heapDecodeMismatch = fmt.Sprintf("%x", enc)
+			batch.points[i] = fresh
 		}
 	}
 }
@@ -354,6 +364,9 @@ func jobC17(c *rt.Ctx) {
 			c.Class("reuse")
 			c.Distinct(fmt.Sprintf("reuse %v %s", seq, sp0), true)
 		}
+	}
+	if heapDecodeMismatch != "" {
+		c.Violation("C17 heap-reuse decode", fmt.Sprintf("decoding %s into a heap slot used by an earlier chunk differs from decoding it into a fresh point", heapDecodeMismatch), map[string]interface{}{"encoding": heapDecodeMismatch})
 	}
 	// (3) vartime helpers on boundary pairs vs big.Int
 	jobC17Helpers(c)
